@@ -44,7 +44,9 @@ RULE = ("An input vector is (machine, addressed region, request kind utilize|ran
         "immediateRandomize(Utilitarian region); utilize: utilities {0..3}^w x 3 rank vectors through immediateUtilize / "
         "immediateChangeTo(Utilitarian region) / immediateUtilize(Random region). Rounding domain: every w-tuple (w = 2..5) over "
         "{0, 2^-24, 0.1, 1/3, 1, 3, 1e10, 2*FLT_MIN} x rank vectors (all equal + sampled mixed; thorough: all 3^w for w <= 3) x r in "
-        "{0, 2^-24, 0.5, 1-2^-23, 1-2^-24, and per cumulative boundary the float nearest to boundary/sum and its two neighbours}. "
+        "{0, 2^-24, 0.5, 1-2^-23, 1-2^-24, and per cumulative boundary the float nearest to boundary/sum and its two neighbours}; "
+        "plus sampled (fixed seed) utility vectors with full 24-bit mantissas (uniform in [0,1), scaled by 2^-20..2^20, with zeros) "
+        "under the same generator outputs. "
         "Nested structures: sampled vectors (fixed seed) over the exact domain.")
 
 
